@@ -121,6 +121,9 @@ pub struct Profile {
     pub flatten_tower: u32,
     /// the feature-gated third-party types (chrono, uuid, url, indexmap, heapless, bytes, ..)
     pub ext_types: bool,
+    /// percentage of modules that get a reference cycle between two definitions
+    /// (`A { .., back: Option<Box<B>> }` where B already refers to A)
+    pub cycles: u32,
     /// generate `bson::oid::ObjectId` although its binding is a listed finding
     pub known_objectid: bool,
 }
@@ -167,6 +170,7 @@ impl Profile {
             doc_col0: 20,
             flatten_tower: 0,
             ext_types: false,
+            cycles: 0,
             known_objectid: false,
         }
     }
@@ -247,7 +251,7 @@ impl Names {
             }
         }
     }
-    fn key(s: &str) -> String {
+    pub fn key(s: &str) -> String {
         s.trim_start_matches("r#").replace(['_', '-', ' '], "").to_lowercase()
     }
     fn claim(&mut self, s: &str) -> bool {
@@ -728,6 +732,42 @@ impl Cx<'_> {
                 }
             }
         }
+        // the content of a newtype variant of an internally tagged enum is merged into the
+        // object as well
+        if let Body::Enum(vs) = &self.types[idx].body {
+            if self.types[idx].attrs.repr() == Repr::Internal {
+                for v in vs {
+                    if let VBody::Newtype(f) = &v.body {
+                        if let Some(i) = flatten_target(&f.ty) {
+                            self.flatten_closure(i, out);
+                        }
+                    }
+                }
+            }
+        }
+    }
+
+    /// the variant names that become *keys* of the parent object when `idx` is flattened:
+    /// variants of the externally tagged enums in its flatten closure (variant names are only
+    /// unique per enum; two flattened enums with a `Pair` variant write the key `Pair` twice)
+    fn variant_keys(&self, idx: usize) -> std::collections::BTreeSet<String> {
+        let mut closure = std::collections::BTreeSet::new();
+        self.flatten_closure(idx, &mut closure);
+        let mut out = std::collections::BTreeSet::new();
+        for i in closure {
+            let td = &self.types[i];
+            if let Body::Enum(vs) = &td.body {
+                if td.attrs.repr() == Repr::External {
+                    for v in vs {
+                        out.insert(Names::key(&v.ident));
+                        if let Some(r) = &v.rename {
+                            out.insert(Names::key(r));
+                        }
+                    }
+                }
+            }
+        }
+        out
     }
 
     fn gen_field(&mut self, t: &mut Tape, params: &[Param], named: bool, local: &mut Names, allow_flatten: bool) -> Field {
@@ -750,7 +790,8 @@ impl Cx<'_> {
                 .filter(|i| {
                     let mut c = std::collections::BTreeSet::new();
                     self.flatten_closure(*i, &mut c);
-                    c.is_disjoint(&self.flattened_here)
+                    let keys_here: std::collections::BTreeSet<String> = self.flattened_here.iter().flat_map(|j| self.variant_keys(*j)).collect();
+                    c.is_disjoint(&self.flattened_here) && self.variant_keys(*i).is_disjoint(&keys_here)
                 })
                 .collect();
             if !cands.is_empty() {
@@ -1031,6 +1072,17 @@ impl Cx<'_> {
                         // unique in the module: a struct tag and the tag of a flattened enum must differ
                         attrs.tag = Some(self.names.fresh(t, &[TAGS], &[100], "tg"));
                     }
+                    // the same user type twice in one struct: by name first, inlined later
+                    if fields.len() >= 2 && self.p.inline > 0 && t.pct(self.p.inline) {
+                        let plain = |f: &Field| !f.flatten && !f.skip && f.optional.is_none() && !f.skip_if_none && f.type_override.is_none() && !f.as_same && f.as_type.is_none();
+                        let from = fields.iter().position(|f| plain(f) && !f.inline && matches!(&f.ty, TyExpr::User(i, a) if a.is_empty() && self.types[*i].params.is_empty()));
+                        if let Some(a) = from {
+                            if let Some(b) = (a + 1..fields.len()).find(|b| plain(&fields[*b]) && !matches!(fields[*b].ty, TyExpr::SelfRef(_))) {
+                                fields[b].ty = fields[a].ty.clone();
+                                fields[b].inline = self.p.known_inline_default || !self.mentions_generic_with_user_default(&fields[b].ty);
+                            }
+                        }
+                    }
                     if t.pct(self.p.optional / 3) {
                         let nullable = t.pct(40);
                         attrs.optional_fields = Some(nullable);
@@ -1174,7 +1226,8 @@ fn flatten_tower(cx: &mut Cx, t: &mut Tape) {
         }
         let mut mine = std::collections::BTreeSet::new();
         cx.flatten_closure(i, &mut mine);
-        mine.is_disjoint(&all)
+        let keys: std::collections::BTreeSet<String> = chosen.iter().flat_map(|c| cx.variant_keys(*c)).collect();
+        mine.is_disjoint(&all) && cx.variant_keys(i).is_disjoint(&keys)
     };
     let want = 2 + t.choose(2);
     let mut chosen: Vec<usize> = vec![];
@@ -1234,6 +1287,58 @@ fn flatten_tower(cx: &mut Cx, t: &mut Tape) {
     }
     let outer = plain(cx, t, "Tower", outer_fields);
     cx.types.push(outer);
+}
+
+/// A cycle through two or more definitions: a named struct A gets a field `Option<Box<B>>` /
+/// `Vec<B>` of a later definition B that (transitively, by name or not) refers to A. The new edge
+/// is by name, so no chain of `inline`/`flatten` can go round in circles.
+fn add_cycle(cx: &mut Cx, t: &mut Tape) {
+    let n = cx.types.len();
+    let plain = |td: &TypeDef| td.params.is_empty() && td.lifetimes.is_empty() && td.consts.is_empty() && td.attrs.type_override.is_none() && td.attrs.as_type.is_none();
+    let mut pairs = vec![];
+    for a in 0..n {
+        if !plain(&cx.types[a]) || !matches!(&cx.types[a].body, Body::Named(fs) if !fs.is_empty()) {
+            continue;
+        }
+        for b in a + 1..n {
+            if !plain(&cx.types[b]) {
+                continue;
+            }
+            // does b reach a?
+            let mut seen = std::collections::BTreeSet::new();
+            let mut todo = vec![b];
+            let mut reaches = false;
+            while let Some(i) = todo.pop() {
+                if !seen.insert(i) {
+                    continue;
+                }
+                let mut direct = std::collections::BTreeSet::new();
+                for f in cx.types[i].all_fields() {
+                    model::collect_users(&f.ty, &mut direct);
+                }
+                if direct.contains(&a) {
+                    reaches = true;
+                    break;
+                }
+                todo.extend(direct);
+            }
+            if reaches {
+                pairs.push((a, b));
+            }
+        }
+    }
+    if pairs.is_empty() {
+        return;
+    }
+    let (a, b) = *t.pick(&pairs);
+    let ident = cx.names.fresh(t, &[&["back", "owner", "parent_of", "cycle"]], &[100], "back");
+    let inner = TyExpr::User(b, vec![]);
+    let ty = if t.pct(60) { TyExpr::Option(Box::new(TyExpr::Wrap("Box", Box::new(inner)))) } else { TyExpr::Vec(Box::new(inner)) };
+    // (`optional_fields` declares `back?: B`: serde has to leave a `None` out then)
+    let skip_if_none = matches!(ty, TyExpr::Option(_)) && cx.types[a].attrs.optional_fields == Some(false);
+    if let Body::Named(fs) = &mut cx.types[a].body {
+        fs.push(Field { ident: Some(ident), ty, skip_if_none, ..Field::default() });
+    }
 }
 
 /// Name collisions a real code base has: a name that extends another name in the same file, and
@@ -1319,6 +1424,9 @@ pub fn gen_module(words: &[u32], profile: &Profile, name: &str) -> Module {
     if profile.flatten > 0 && t.pct(profile.flatten_tower) {
         flatten_tower(&mut cx, &mut t);
     }
+    if t.pct(profile.cycles) {
+        add_cycle(&mut cx, &mut t);
+    }
     name_games(&mut cx, &mut t);
     let mut insts = vec![];
     let simple_args: Vec<TyExpr> = vec![
@@ -1337,7 +1445,7 @@ pub fn gen_module(words: &[u32], profile: &Profile, name: &str) -> Module {
         } else {
             let ninst = 2 + t.choose(2);
             for k in 0..ninst {
-                let mut args = vec![];
+                let mut args: Vec<TyExpr> = vec![];
                 for p in &td.params {
                     // a concretised parameter is instantiated with its concrete type
                     if let Some(c) = &p.concrete {
@@ -1357,8 +1465,36 @@ pub fn gen_module(words: &[u32], profile: &Profile, name: &str) -> Module {
                         .filter(|j| !(twin_of(*j) && names_inside.contains(&cx.types[*j].ts_name())))
                         .filter(|j| cx.types[*j].expected_path().ends_with(".ts"))
                         .collect();
-                    if !user_cands.is_empty() && t.pct(35) {
-                        args.push(TyExpr::User(*t.pick(&user_cands), vec![]));
+                    // another instantiated generic as argument (`G<H<i32>>`)
+                    let generic_cands: Vec<usize> = (0..i)
+                        .filter(|j| !cx.types[*j].params.is_empty() && cx.types[*j].lifetimes.is_empty() && cx.types[*j].consts.is_empty() && cx.types[*j].attrs.optional_fields.is_none())
+                        .filter(|j| !names_inside.contains(&cx.types[*j].ts_name()) || !twin_of(*j))
+                        .filter(|j| cx.types[*j].expected_path().ends_with(".ts"))
+                        .collect();
+                    if !generic_cands.is_empty() && t.pct(15) {
+                        let j = *t.pick(&generic_cands);
+                        let inner: Vec<TyExpr> = cx.types[j]
+                            .params
+                            .iter()
+                            .enumerate()
+                            .map(|(n, p)| p.concrete.clone().unwrap_or_else(|| [TyExpr::Prim("i32"), TyExpr::Prim("String"), TyExpr::Prim("u64")][(n + k) % 3].clone()))
+                            .collect();
+                        args.push(TyExpr::User(j, inner));
+                    } else if !user_cands.is_empty() && t.pct(35) {
+                        // (two definitions with one TypeScript name must not meet in one instantiation)
+                        let mut used = std::collections::BTreeSet::new();
+                        for a in &args {
+                            model::collect_users(a, &mut used);
+                        }
+                        let free: Vec<usize> = user_cands
+                            .iter()
+                            .copied()
+                            .filter(|c| !used.iter().any(|u| u != c && cx.types[*u].ts_name() == cx.types[*c].ts_name()))
+                            .collect();
+                        match free.is_empty() {
+                            false => args.push(TyExpr::User(*t.pick(&free), vec![])),
+                            true => args.push(TyExpr::Prim("i32")),
+                        }
                     } else {
                         args.push(simple_args[(t.choose(simple_args.len()) + k) % simple_args.len()].clone());
                     }
